@@ -11,8 +11,9 @@ Open Scope list_scope.
 Open Scope N_scope.
 
 (* ---------------------------------------------------------------------------------------------- *)
-(* the generated facts are the ones the proofs are about (whichever error handler the CSV file is opened with) *)
-Theorem C20_generated_facts : gen_cfg = set_csv_se pinned_cfg (g_csv_se gen_cfg).
+(* the generated facts are the ones the proofs are about; in particular all three writers encode with the
+   surrogateescape handler (g_csv_se, g_line_se, g_text_se are true in pinned_cfg) *)
+Theorem C20_generated_facts : gen_cfg = pinned_cfg.
 Proof. reflexivity. Qed.
 Theorem C20_generated_normalize :
   gen_ncfg = pinned_ncfg
@@ -164,9 +165,10 @@ Theorem C20_text_spec_on_none_refuted :
 Proof. reflexivity. Qed.
 
 (* ---------------------------------------------------------------------------------------------- *)
-(* totality: no writer fails on records whose text the writer's encoder accepts ... *)
+(* totality: no writer fails on records whose text holds no surrogate other than escaped bytes
+   U+DC80..U+DCFF (rec_ok true) -- the same condition for all three writers *)
 Theorem C20_total_partial : forall o rs, keys_agree gen_cfg o rs ->
-  (forallb (rec_ok (g_csv_se gen_cfg)) rs = true ->
+  (forallb (rec_ok true) rs = true ->
      resolve_term gen_cfg (o_term o) = CRLF \/ resolve_term gen_cfg (o_term o) = [LF] ->
      exists b, csv_out gen_cfg o rs = Some b)
   /\ (forallb (rec_ok true) rs = true -> exists b, line_out gen_cfg o rs = Some b)
@@ -177,8 +179,20 @@ Proof.
   - intros Hok. exact (line_total gen_cfg o rs Hok eq_refl).
   - intros r Hok. exact (text_repr_total gen_cfg r Hok eq_refl).
 Qed.
-(* ... FALSE for the CSV writer on a surrogate-escaped byte while the file is opened with the strict encoder:
-   C20_csv_total_refuted in props/C20_findings.v *)
+(* a surrogate-escaped byte is written by all three writers (the CSV writer: bytes 61 ff) ... *)
+Theorem C20_csv_accepts_escaped_bytes :
+  let rs := [rec_with_s [97; 56575] (tx "'a<dcff>'")] in
+  forallb (rec_ok true) rs = true
+  /\ csv_out gen_cfg {| o_fields := FStr (tx "s"); o_exclude := FNone; o_term := None; o_verbose := false; o_spec := None |} rs
+     = Some [115; CR; LF; 97; 255; CR; LF]
+  /\ line_out gen_cfg no_opts rs <> None.
+Proof. repeat split; try reflexivity; discriminate. Qed.
+(* ... and "no writer fails" is FALSE of the same model with the strict handler for the CSV file (the flipped
+   fact: what CsvfileWriter did before it opened its file with errors="surrogateescape") *)
+Theorem C20_csv_total_refuted :
+  let rs := [rec_with_s [97; 56575] (tx "'a<dcff>'")] in
+  forallb (rec_ok true) rs = true /\ csv_out (set_csv_se gen_cfg false) no_opts rs = None.
+Proof. split; reflexivity. Qed.
 (* ... and FALSE for all three on a surrogate that no handler encodes (the text writer: in template mode;
    repr() escapes such code points) *)
 Theorem C20_total_lone_surrogate_refuted :
@@ -231,7 +245,7 @@ Qed.
 (* non-vacuity: the hypotheses are satisfiable *)
 Example C20_hyp_satisfiable :
   let r := rec_with_s (tx "a,b") (tx "'a,b'") in
-  keys_agree gen_cfg no_opts [r; r] /\ forallb (rec_ok (g_csv_se gen_cfg)) [r; r] = true
+  keys_agree gen_cfg no_opts [r; r] /\ forallb (rec_ok true) [r; r] = true
   /\ names_lf_free (selected no_opts r) /\ delim_ok 44 = true
   /\ tpl_canon [TLit (tx "x="); TField (tx "s") None []; TField (tx "zz") (Some 114) (tx ">8")] = true.
 Proof.
